@@ -86,7 +86,7 @@ Definition parse_enum (d : dict) (p : pointer) (st : jbst) : res (jbst * nat) :=
   do ne <- read_list d "NOT_enum"; do en <- read_list d "enum";
   let ne := match ne with Some l => l | None => [] end in
   let en := match en with Some l => l | None => [] end in
-  if negb (hashable_all ne && hashable_all en) then PyErr ETypeError else
+  if negb (hashable_all ne && hashable_all en) then jerr else      (* only scalar members (after the fix; TypeError before) *)
   let invalid := pdiff (pset ne) (pset en) in
   let valid := pdiff (pset en) invalid in
   let '(st, root) := jnoop false (Some (pstr p)) st in
@@ -130,7 +130,7 @@ Definition parse_string (d : dict) (p : pointer) (st : jbst) : res (jbst * nat) 
   | Some (JStr _) => jerr                                   (* formats: outside the model (table lookup) *)
   | Some _ => jerr
   | None =>
-    if match mx with Some m => Z.ltb m (Z.of_nat mn) | None => false end then PyErr EAssertionError else
+    if match mx with Some m => Z.ltb m (Z.of_nat mn) | None => false end then jerr else   (* AssertionError before the fix *)
     let '(st, root) := jnoop false None st in
     let '(st, l) := jleaf true (JStr (repeat 120 mn)) st in
     Ok (jadd root l st, root)
